@@ -185,6 +185,11 @@ func genPack(w *world, ch string, kinds []string) *rapid.Generator[*packContent]
 			part := anyText(t, "part")
 			b := &commonpb.MsgBase{MsgID: rapid.Int64Range(1, 1<<50).Draw(t, "msgid"), Timestamp: beg,
 				SourceID: rapid.Int64Range(1, 1<<20).Draw(t, "srcid"), TargetID: rapid.Int64Range(0, 1<<20).Draw(t, "tgtid")}
+			if rapid.IntRange(0, 3).Draw(t, "upstream") == 0 {
+				// the source is itself a replica: messages already carry replicate info of an upstream task
+				b.ReplicateInfo = &commonpb.ReplicateInfo{IsReplicate: rapid.Bool().Draw(t, "upisrep"),
+					ReplicateID: "upstream-" + nameGen.Draw(t, "upid"), MsgTimestamp: rapid.Uint64().Draw(t, "upts")}
+			}
 			dbID, collID, partID := rapid.Int64Range(0, 1<<40).Draw(t, "dbid"), rapid.Int64Range(1, 1<<50).Draw(t, "collid"), rapid.Int64Range(1, 1<<50).Draw(t, "partid")
 			var req proto.Message
 			end := beg
